@@ -233,6 +233,8 @@ enum ResKind {
     },
     Listener {
         name: String,
+        /// dup of the listening socket: keeps it alive for the harness' connects
+        _obs: OwnedFd,
         clients: Vec<OwnedFd>,
         accepted: Vec<u8>,
     },
@@ -345,6 +347,7 @@ pub struct World<'a> {
     settings: Settings,
     file_path: &'a Path,
     made_ready_since_harvest: u32,
+    result_class: Vec<String>,
     finals_this_step: u32,
     torn_down: bool,
 }
@@ -404,6 +407,7 @@ impl<'a> World<'a> {
             settings,
             file_path: env.file_path,
             made_ready_since_harvest: 0,
+            result_class: vec![String::new(); prog.ops.len()],
             finals_this_step: 0,
             torn_down: false,
         };
@@ -484,6 +488,7 @@ impl<'a> World<'a> {
                     let l = unix_listener(&name);
                     (
                         ResKind::Listener {
+                            _obs: dup(l.as_raw_fd()),
                             name,
                             clients: Vec::new(),
                             accepted: Vec::new(),
@@ -752,6 +757,9 @@ impl<'a> World<'a> {
             Step::Stop => self.epilogue(),
         }
         self.last = Some(s);
+        if !self.torn_down {
+            self.collect();
+        }
         let line = format!("{}{}{}", s.name(), if note.is_empty() { "" } else { " -> " }, note);
         self.push_obs(line);
     }
@@ -1160,11 +1168,13 @@ impl<'a> World<'a> {
         match out {
             Outcome::Failed(e) => {
                 note = format!("Err({e})");
+                self.result_class[i] = format!("err{e}");
                 if !(cancelled && e == libc::ECANCELED) {
                     self.fail("result", format!("error:{name}"), format!("op {i} ({name}) failed with errno {e} although nothing the harness did can fail it"));
                 }
             }
             Outcome::Accepted(_n, sock) => {
+                self.result_class[i] = "accepted".into();
                 let mut b = [0u8; 1];
                 let n = unsafe { libc::recv(sock.as_raw_fd(), b.as_mut_ptr() as _, 1, libc::MSG_DONTWAIT) };
                 let res = spec.res as usize;
@@ -1193,6 +1203,7 @@ impl<'a> World<'a> {
                 drop(sock);
             }
             Outcome::Bytes(n, buf) => {
+                self.result_class[i] = format!("ok{n}");
                 let raw = buf.raw().to_vec();
                 note = format!("Ok({n},{:02x?})", &raw[..n.min(raw.len())]);
                 if buf.id != self.ops[i].buf_id {
@@ -1408,20 +1419,31 @@ impl<'a> World<'a> {
             }
         }
         self.settle_pool();
-        // 5. a job that outlived the runtime releases its storage on the pool thread: wait for
-        //    the buffer drop that goes with it
-        let deadline = Instant::now() + Duration::from_millis(1000);
-        loop {
-            self.collect();
-            let missing = (0..self.ops.len()).any(|i| {
-                self.ops[i].submitted
-                    && self.ops[i].ids.iter().any(|id| self.ids[id].pool_submit.is_some())
-                    && !self.trace.iter().any(|t| matches!(t.ev, Ev::Har(HKind::BufDrop(b)) if b == self.ops[i].buf_id))
-            });
-            if !missing || Instant::now() > deadline {
-                break;
+        // 5. a pool job that outlived the runtime releases what is left (its own completion
+        //    entry, and the completion queue it kept alive) on the pool thread: wait for that
+        let td = self.teardown_seq.unwrap();
+        let _ = td;
+        // (also a job that left before the teardown but whose completion entry the driver never
+        // received: the pool thread may still be between "done" and "send")
+        // (also when every job is done: a pool thread that is still inside the tail of its closure
+        // keeps the completion queue alive, and whatever sits in it is then released there)
+        let late_job = self.ids.values().any(|s| s.pool_submit.is_some());
+        if late_job {
+            let deadline = Instant::now() + Duration::from_millis(400);
+            loop {
+                self.collect();
+                let missing = (0..self.ops.len()).any(|i| {
+                    let o = &self.ops[i];
+                    o.submitted
+                        && (o.ids.iter().any(|id| self.ids[id].frees.is_empty())
+                            || (o.spec.kind != Kind::Accept
+                                && !self.trace.iter().any(|t| matches!(t.ev, Ev::Har(HKind::BufDrop(b)) if b == o.buf_id))))
+                });
+                if !missing || Instant::now() > deadline {
+                    break;
+                }
+                std::thread::sleep(Duration::from_micros(50));
             }
-            std::thread::sleep(Duration::from_micros(50));
         }
         self.collect();
         set_pool_sink(None);
@@ -1430,11 +1452,10 @@ impl<'a> World<'a> {
             self.fail("lifetime", "write-into-released-buffer".into(), format!("canary of released block(s) {bad:?} was overwritten after the release"));
         }
         self.trace.sort_by_key(|t| t.seq);
-        self.step_idx += 1;
         self.lifetime_oracle();
-        let line = "Teardown".to_string();
-        self.step_idx -= 1;
-        self.push_obs(line);
+        if !matches!(self.steps.last(), Some(Step::DropRuntime)) {
+            self.push_obs("Teardown".to_string());
+        }
     }
 
     fn op_is_cqe_possible(&self, i: usize) -> bool {
@@ -1550,16 +1571,11 @@ impl<'a> World<'a> {
                     });
                 }
                 if s.frees.is_empty() {
-                    // storage released by a pool thread after the runtime was gone logs into that
-                    // thread's private log; the buffer drop is the witness then
-                    let pool_late = s.pool_submit.is_some() && s.leave.is_some_and(|l| l > td);
-                    if !pool_late {
-                        fails.push(Fail {
-                            oracle: "lifetime",
-                            class: format!("leak:{name}"),
-                            msg: format!("operation storage of op {i} ({name}) was never freed"),
-                        });
-                    }
+                    fails.push(Fail {
+                        oracle: "lifetime",
+                        class: format!("leak:{name}"),
+                        msg: format!("operation storage of op {i} ({name}) was never freed"),
+                    });
                 }
                 if s.finals.len() > 1 {
                     fails.push(Fail {
@@ -1570,7 +1586,7 @@ impl<'a> World<'a> {
                 }
             }
             let nd = buf_drops.get(&o.buf_id).map(|v| v.len()).unwrap_or(0);
-            if nd != 1 {
+            if nd != 1 && o.spec.kind != Kind::Accept {
                 fails.push(Fail {
                     oracle: "lifetime",
                     class: format!("{}:{name}", if nd == 0 { "buffer-leak" } else { "buffer-double-drop" }),
@@ -1607,13 +1623,41 @@ impl<'a> World<'a> {
         self.fails.extend(fails);
     }
 
+    /// compact class of the execution: configuration + how every operation ended
+    pub fn signature(&self) -> String {
+        let mut parts = vec![self.cfg.name()];
+        for (i, o) in self.ops.iter().enumerate() {
+            let has_final = o.ids.iter().any(|id| !self.ids[id].finals.is_empty());
+            let st = if !o.submitted {
+                "-".to_string()
+            } else if o.delivered {
+                self.result_class[i].clone()
+            } else if o.cancel_step.is_some() {
+                if has_final { "cancelled+final".into() } else { "cancelled-inflight".into() }
+            } else if has_final {
+                "held+final".into()
+            } else if o.ids.iter().any(|id| self.ids[id].submit.is_some() || self.ids[id].pool_submit.is_some()) {
+                "held-inflight".into()
+            } else {
+                "held".into()
+            };
+            parts.push(format!("{}:{}", self.opname(i), st));
+        }
+        parts.join("|")
+    }
+
     pub fn finish(&mut self) {
         if !self.torn_down {
             match self.prop {
-                Prop::C01 => self.teardown(),
+                Prop::C01 => {
+                    self.step_idx += 1;
+                    self.teardown()
+                }
                 Prop::C02 => {
                     self.step_idx += 1;
+                    self.steps.push(Step::Stop);
                     self.epilogue();
+                    self.steps.pop();
                 }
             }
         }
